@@ -19,6 +19,8 @@ ASSUMPTIONS = ["user callables answer as a function of the site (A-oracle)"]
 EXHAUSTIVE_STREAM = True
 
 AW = {"T": 5, "F": 5, "R": 0.5, "BR": 0.5}
+NEIGHBOURS = [{"from": "C05", "tags": ["hostile"], "limit": 1500, "why": "error factories are called with the call's values whatever the parameters are named"},
+              {"from": "C05", "limit": 600, "why": "error factories are called with the call's values however the factory declares its parameters"}]
 
 
 def _exh():
